@@ -132,7 +132,7 @@ class Show:
         total_step_time = 0
 
         # add empty first step if show does not start right away
-        if 'time' in data[0] and data[0]['time'] != 0:
+        if 'time' in data[0] and Util.string_to_secs(data[0]['time']) != 0:
             self.show_steps.append({'duration': Util.string_to_secs(data[0]['time'])})
             total_step_time = Util.string_to_secs(data[0]['time'])
 
